@@ -2,6 +2,8 @@
 from __future__ import annotations
 
 import itertools
+import os
+import tempfile
 
 from .. import common
 from ..common import Result, Driver, stage_a, finish, rng_for, Findings
@@ -146,6 +148,33 @@ def run(tier: str, seed: int) -> int:
             impl = {"ok": {"version": cfg["VERSION"]["DEFAULT_VERSION"], "seq": int(cfg["VERSION"]["DEFAULT_SEQ_NUM"])}}
         except Exception as ex:  # noqa
             impl = common.impl_err(ex)
+        # the same values as a VERSION *file* read by the build script, in the layouts such a file is found in: entries in any order (an empty
+        # EXTRAVERSION before the other entries), CRLF line ends and no final line break, no blanks around '=', comments and blank lines, other entries
+        lines_v = [ln for ln in txt.split("\n") if ln]
+        layout = n % 6
+        if layout == 1:
+            rng.shuffle(lines_v)
+        elif layout == 2:
+            lines_v = [ln for ln in lines_v if ln.startswith("EXTRAVERSION")] + [ln for ln in lines_v if not ln.startswith("EXTRAVERSION")]
+        elif layout == 4:
+            lines_v = ["# version of the application", ""] + [ln.replace(" = ", "=") for ln in lines_v] + ["", "; end"]
+        elif layout == 5:
+            lines_v = [x for k_, ln in enumerate(lines_v) for x in ("UNRELATED_%d =" % k_, ln)] + ["SYSCTRL_VERSION_MAJOR = 9", "SYSCTRL_VERSION_MINOR = 8", "SYSCTRL_VERSION_PATCH = 7",
+                                                                                           "SYSCTRL_VERSION_EXTRA ="]
+        text_v = ("\r\n" if layout == 3 else "\n").join(lines_v) + ("" if layout == 3 else "\n")
+        with tempfile.TemporaryDirectory(prefix="verif_c20_") as vd:
+            vf = os.path.join(vd, "VERSION")
+            with open(vf, "w", newline="") as fh:
+                fh.write(text_v)
+            try:
+                got = dict(ncs_build.read_version_file(vf))
+                via_file = {"ok": {"version": got["DEFAULT_VERSION"], "seq": int(got["DEFAULT_SEQ_NUM"])}}
+            except Exception as ex:  # noqa
+                via_file = common.impl_err(ex)
+        res.count(f"version-file-layout:{layout}")
+        if via_file != impl:
+            res.spec_failures.append({"case": [M, m, p, t, e], "version_file": text_v, "through_the_file": via_file, "from_the_values": impl,
+                                      "what": "the default version / sequence number read from the VERSION file differ from those of the values it holds"})
         model = drv.call({"op": "version.default", "major": str(M), "minor": str(m), "patch": str(p), "extra": e,
                           "tweak": None if t is None else str(t)})
         res.case(["default", M, m, p, t, e])
